@@ -90,7 +90,7 @@ def regen():
     tool = os.path.join(BUILD, "astgen")
     if not os.path.exists(tool):
         return True, "", {}
-    rc, out = sh([tool, "-repo", REPO, "-out", os.path.join(COQ, "Gen")], timeout=300)
+    rc, out = sh([tool, "-repo", REPO, "-out", os.path.join(COQ, "Gen"), "-pinned", os.path.join(COQ, "GenPinned")], timeout=300)
     status = {}
     for line in out.splitlines():
         m = re.match(r"^GEN\s+(\S+)\s+(\S+)(?:\s+(.*))?$", line)
